@@ -53,6 +53,10 @@ type lkSpec struct {
 	Keeps    []string                 `json:"keeps"`
 	Gives    []string                 `json:"gives"`
 	MustGive []string                 `json:"must_give"`
+	// shared fields and the lock class that must be held (by the same object) when they are touched; and the
+	// existing unguarded accesses that are tolerated: "Func.Name:Type.field:r|w"
+	Guarded      map[string]string `json:"guarded"`
+	AllowUnguard []string          `json:"allow_unguarded"`
 }
 
 type lkEv struct {
@@ -415,7 +419,11 @@ func (c *fctx) exprEvents(e ast.Expr, s *scope) []lkEv {
 	case *ast.ParenExpr:
 		return c.exprEvents(v.X, s)
 	case *ast.SelectorExpr:
-		return c.exprEvents(v.X, s)
+		out = c.exprEvents(v.X, s)
+		if ev, ok := c.accessEvent(v, s, false); ok {
+			out = append(out, ev)
+		}
+		return out
 	case *ast.StarExpr:
 		return c.exprEvents(v.X, s)
 	case *ast.UnaryExpr:
@@ -440,6 +448,48 @@ func (c *fctx) exprEvents(e ast.Expr, s *scope) []lkEv {
 		return out
 	}
 	return nil
+}
+
+// accessEvent: `X.f` where f is a guarded field of a package struct
+func (c *fctx) accessEvent(sel *ast.SelectorExpr, s *scope, write bool) (lkEv, bool) {
+	t := stripPtr(c.typeOf(sel.X, s))
+	d, _, ok := c.x.fieldOf(t, sel.Sel.Name)
+	if !ok {
+		return lkEv{}, false
+	}
+	g, ok := c.x.spec.Guarded[d+"."+sel.Sel.Name]
+	if !ok {
+		return lkEv{}, false
+	}
+	return lkEv{K: "access", Cls: g, Who: c.whoOf(sel.X, s), Write: write, Note: d + "." + sel.Sel.Name}, true
+}
+
+// lhsEvents: events of an assignment target (a store into a guarded field, or into an element of it, is a write access)
+func (c *fctx) lhsEvents(l ast.Expr, s *scope) []lkEv {
+	switch v := l.(type) {
+	case *ast.Ident:
+		return nil
+	case *ast.SelectorExpr:
+		out := c.exprEvents(v.X, s)
+		if ev, ok := c.accessEvent(v, s, true); ok {
+			out = append(out, ev)
+		}
+		return out
+	case *ast.IndexExpr:
+		out := c.exprEvents(v.Index, s)
+		if sel, ok := v.X.(*ast.SelectorExpr); ok {
+			out = append(out, c.exprEvents(sel.X, s)...)
+			if ev, ok := c.accessEvent(sel, s, true); ok {
+				return append(out, ev)
+			}
+		}
+		return append(out, c.exprEvents(v.X, s)...)
+	case *ast.ParenExpr:
+		return c.lhsEvents(v.X, s)
+	case *ast.StarExpr:
+		return c.exprEvents(v.X, s)
+	}
+	return c.exprEvents(l, s)
 }
 
 func isLockOp(m string) (acq, write, ok bool) {
@@ -546,6 +596,13 @@ func (c *fctx) callEvents(call *ast.CallExpr, s *scope) []lkEv {
 			return append(out, lkEv{K: "callback", Note: name})
 		}
 		if lkBuiltins[name] {
+			if name == "delete" && len(call.Args) > 0 {
+				if sel, ok := call.Args[0].(*ast.SelectorExpr); ok {
+					if ev, ok := c.accessEvent(sel, s, true); ok {
+						out = append(out, ev)
+					}
+				}
+			}
 			closures(true)
 			return out
 		}
@@ -740,9 +797,7 @@ func (c *fctx) stmt(st ast.Stmt, s *scope) []lkEv {
 			out = append(out, c.exprEvents(r, s)...)
 		}
 		for _, l := range v.Lhs {
-			if _, isId := l.(*ast.Ident); !isId {
-				out = append(out, c.exprEvents(l, s)...)
-			}
+			out = append(out, c.lhsEvents(l, s)...)
 		}
 		c.assign(v.Lhs, v.Rhs, s)
 		return out
@@ -970,6 +1025,8 @@ func (c *fctx) stmt(st ast.Stmt, s *scope) []lkEv {
 				out = append(out, e)
 			case "alt", "unknown", "callback", "closure":
 				out = append(out, lkEv{K: "deferBlock", Body: []lkEv{e}})
+			case "access":
+				out = append(out, e) // the argument / receiver expression is evaluated at the defer statement
 			default:
 				out = append(out, lkEv{K: "unknown", Note: "deferred " + e.K})
 			}
@@ -996,7 +1053,7 @@ func (c *fctx) stmt(st ast.Stmt, s *scope) []lkEv {
 	case *ast.LabeledStmt:
 		return c.stmt(v.Stmt, s)
 	case *ast.IncDecStmt:
-		return c.exprEvents(v.X, s)
+		return c.lhsEvents(v.X, s)
 	case *ast.SendStmt:
 		return append(c.exprEvents(v.Chan, s), c.exprEvents(v.Value, s)...)
 	case *ast.BranchStmt, *ast.EmptyStmt:
@@ -1025,7 +1082,7 @@ func (x *lk) leanEvs(evs []lkEv, ids map[string]int, cls map[string]int, ind str
 	var parts []string
 	for _, e := range evs {
 		switch e.K {
-		case "acq", "rel", "deferRel":
+		case "acq", "rel", "deferRel", "access":
 			parts = append(parts, fmt.Sprintf(".%s %d %s %v", e.K, cls[e.Cls], leanWho(e.Who), e.Write))
 		case "call", "deferCall", "spawn":
 			parts = append(parts, fmt.Sprintf(".%s %d %s", e.K, ids[e.Fn], leanWho(e.Who)))
@@ -1306,7 +1363,43 @@ files:
 	fmt.Fprintf(&b, "/-- events the extractor could not resolve (each makes its function fail the discipline check) -/\ndef unresolved : List String := [%s]\n\n", quoteList(unknowns))
 	fmt.Fprintf(&b, "/-- calls of function values (caller-supplied code that runs under the locks held at that point; assumption: it does not call back into the package) -/\ndef callbacks : List String := [%s]\n\n", quoteList(callbacks))
 	fmt.Fprintf(&b, "/- calls into other packages that were not followed:\n%s\n-/\n", strings.Join(exts, "\n"))
-	fmt.Fprintf(&b, "/-- the table the discipline checker runs on -/\ndef table : Tbl := ⟨mfsLockFacts, funcKinds, classRanks, keeps, gives, mustGive⟩\n\n")
+	// API entry points: exported functions and exported methods (the roots of the guarded-field check: unexported
+	// helpers are reached from them with the locks their callers hold)
+	b.WriteString("/-- exported functions / methods, by index -/\ndef exportedFuncs : List Nat := [")
+	firstE := true
+	for i, n := range all {
+		base := n[strings.LastIndex(n, ".")+1:]
+		if strings.Contains(n, "$") || base == "" || !(base[0] >= 'A' && base[0] <= 'Z') {
+			continue
+		}
+		if !firstE {
+			b.WriteString(", ")
+		}
+		firstE = false
+		fmt.Fprint(&b, i)
+	}
+	b.WriteString("]\n\n")
+	// tolerated unguarded accesses: (function id, lock class id, write)
+	b.WriteString("/-- existing accesses to a guarded field without its lock that are tolerated (reported as observations): (function, lock class, is write) -/\ndef allowUnguarded : List (Nat × Nat × Bool) := [")
+	first := true
+	for _, a := range x.spec.AllowUnguard {
+		p := strings.Split(a, ":")
+		if len(p) != 3 {
+			continue
+		}
+		id, ok1 := ids[p[0]]
+		cl, ok2 := cls[x.spec.Guarded[p[1]]]
+		if !ok1 || !ok2 {
+			continue
+		}
+		if !first {
+			b.WriteString(", ")
+		}
+		first = false
+		fmt.Fprintf(&b, "(%d, %d, %v)", id, cl, p[2] == "w")
+	}
+	b.WriteString("]\n\n")
+	fmt.Fprintf(&b, "/-- the table the discipline checker runs on -/\ndef table : Tbl := ⟨mfsLockFacts, funcKinds, classRanks, keeps, gives, mustGive, false, allowUnguarded⟩\n\n/-- the same with the guarded-field rule switched on -/\ndef tableAcc : Tbl := { table with chkAccess := true }\n\n")
 	fmt.Fprintf(&b, "end %s\n", x.spec.Namespace)
 	return os.WriteFile(out, []byte(b.String()), 0o644)
 }
